@@ -199,6 +199,10 @@ def c01_catalogue(quick):
                                                                  dict(to=4, spelling='/dir/sub/deep.html#a/../../b'), 5]),
             U(3, path='/dir/other.html'), U(4, path='/dir/sub/deep.html'), U(5, path='/dir/last.html')]
     out.append(scenario('fragment-with-dot-segments', fdot, N=1))
+    # pages that have moved (meta refresh), in the spellings of the content attribute that browsers follow
+    mr = [U(1, links=[2, 3, 4, 5]), U(2, links=[dict(to=6, refresh='plain')]), U(3, links=[dict(to=7, refresh='nourl')]),
+          U(4, links=[dict(to=8, refresh='sq')]), U(5, links=[dict(to=9, refresh='comma')]), U(6), U(7), U(8), U(9)]
+    out.append(scenario('meta-refresh-spellings', mr, N=1))
     # "pretty" URLs, documents kept on disk: a page that is also the parent of a page that is also a parent (the file
     # of the one stands where the directory of the other belongs - twice on one path)
     pretty = [U(1, links=[2]), U(2, path='/blog', links=[3]), U(3, path='/blog/post1', links=[4, 5]),
